@@ -42,6 +42,29 @@ func init() {
 			*c = FileV{Name: name, Data: d}
 			return Tuple{Ptr{C: c}, Iface{}}
 		},
+		"os.OpenFile": func(x *Exec, fr *frame, fn *ssa.Function, a []Value) Value {
+			name := cstr(x, a[0], "file name")
+			flag := cint(x, a[1], "open flags")
+			const oCreate, oTrunc, oAppend = 0x40, 0x200, 0x400
+			d := x.fsGet(name)
+			if d == nil {
+				if flag&oCreate == 0 {
+					return Tuple{Ptr{}, x.osError("open " + name + ": no such file")}
+				}
+				d = &[]*Term{}
+				x.side["fs:"+name] = d
+			}
+			if flag&oTrunc != 0 {
+				*d = (*d)[:0]
+			}
+			c := new(Value)
+			f := FileV{Name: name, Data: d}
+			if flag&oAppend != 0 {
+				f.Pos = len(*d)
+			}
+			*c = f
+			return Tuple{Ptr{C: c}, Iface{}}
+		},
 		"os.Open": func(x *Exec, fr *frame, fn *ssa.Function, a []Value) Value {
 			name := cstr(x, a[0], "file name")
 			d := x.fsGet(name)
@@ -76,14 +99,16 @@ func init() {
 			p := a[0].(Ptr)
 			f := (*p.C).(FileV)
 			s := a[1].(Str)
-			*f.Data = append(*f.Data, s.B...)
+			f.Pos = fileWriteAt(f.Data, f.Pos, s.B)
+			*p.C = f
 			return Tuple{x.ts.BV(64, uint64(len(s.B))), Iface{}}
 		},
 		"(*os.File).Write": func(x *Exec, fr *frame, fn *ssa.Function, a []Value) Value {
 			p := a[0].(Ptr)
 			f := (*p.C).(FileV)
 			b := bytesOf(a[1])
-			*f.Data = append(*f.Data, b...)
+			f.Pos = fileWriteAt(f.Data, f.Pos, b)
+			*p.C = f
 			return Tuple{x.ts.BV(64, uint64(len(b))), Iface{}}
 		},
 		"(*os.File).Read": func(x *Exec, fr *frame, fn *ssa.Function, a []Value) Value {
@@ -112,4 +137,15 @@ func init() {
 	for k, v := range om {
 		models[k] = v
 	}
+}
+
+func fileWriteAt(d *[]*Term, pos int, b []*Term) int {
+	for i, t := range b {
+		if pos+i < len(*d) {
+			(*d)[pos+i] = t
+		} else {
+			*d = append(*d, t)
+		}
+	}
+	return pos + len(b)
 }
